@@ -27,6 +27,9 @@ through the collision guards of insert.
 
 Round 5: a class-level fields_stack filled in place; try-else is outside the handlers; narrower
 handlers before the catch-all in the drivers.
+
+Round 6: each bit-run member merges its own value (C07-d); every generated half can name what
+its handlers use (C15-E); a context-manager class used by the drivers is their handler.
 """
 import ast
 import re
